@@ -7,7 +7,7 @@
               (`@debug $n`) must equal the outputs of `Grass.Scope.run Cfg.now` on the same operations;
             * evaluator: random programs; declarations + @debug/@warn trace + error class of grass
               must equal `Grass.Eval.evalProgram Dev.asFound` (the reference evaluator with the
-              as-found switches of the known findings N2, N3 on).
+              as-found switch of the known finding N3 on; N1, N2, N4 were repaired in /repo).
 (c) DIRECT  the specification is the oracle: P̂(program, observation) = "the observation is the one
             the specification's evaluation rules produce" — `scope check` in Lean for operation
             sequences; canonical-trace equality with `evalProgram Dev.spec` for programs.  A failure
@@ -25,8 +25,8 @@ from vlib import Check, RunnerPool, compile_job, driver, log
 from props import c03_gen as G
 
 FUEL = 600
-DEV_ALL = "erq"
-DEV_TAGS = {"e": "N3-empty-list-declaration", "r": "N2-rest-separator", "q": "N4-message-quotes"}
+DEV_ALL = "e"          # the code as it stands (Grass.Eval.Dev.now): only N3 is still as found
+DEV_TAGS = {"e": "N3-empty-list-declaration"}
 
 ERR_CLASSES = [
     (r"^Undefined variable\.", "undefined-variable"),
@@ -231,13 +231,19 @@ CORPUS = [
                     ("mixin", "m", ((), None), (("decl", "b", ("var", "x")),)),
                     ("var", "x", ("str", "local", False), False, False),
                     ("incl", "m", ((), (), None), None)))),
+    # N1 (repaired, adef70c): named arguments are evaluated in source order
+    (("func", "c03n1g", ((("x", None),), None), (("debug", ("var", "x")), ("ret", ("var", "x")))),
+            ("func", "c03n1f", ((("c03n1a", None), ("c03n1b", None)), None),
+             (("ret", ("bin", "add", ("var", "c03n1a"), ("var", "c03n1b"))),)),
+            ("debug", ("call", "c03n1f", (), (("c03n1b", ("call", "c03n1g", (("num", F(1)),), (), None)),
+                                               ("c03n1a", ("call", "c03n1g", (("num", F(2)),), (), None))), None))),
     # N3 (known): an empty list as a declaration value
     (("rule", "a", (("decl", "p", ("list", (), "u", False)),)),),
-    # N2 (known): separator of a spread list bound to a rest parameter
+    # N2 (repaired, e36bfd5): separator of a spread list bound to a rest parameter
     (("func", "f", ((), "rest"), (("ret", ("var", "rest")),)),
      ("debug", ("call", "f", (), (), ("list", (("num", F(1)), ("num", F(2))), "s", False)))),
-    # N4 (known): quoted strings keep their quotes in @debug / @warn
-    (("debug", ("str", "foo", True)), ("warn", ("str", "bar", True))),
+    # N4 (repaired, e10570a): @debug / @warn deliver a string's text; @error keeps inspect
+    (("debug", ("str", "foo", True)), ("warn", ("str", "bar", True)), ("error", ("str", "baz", True))),
     # seeded change m2 (stale values in ragged @each destructuring): the missing position is null
     (("each", ("m", "n"), ("list", (("list", (("num", F(5)), ("num", F(7))), "s", False), ("num", F(8))), "c", False),
       (("debug", ("var", "n")),)),),
@@ -259,15 +265,9 @@ CORPUS = [
 ]
 
 
-# Witnesses of findings the as-found switches do not model (the generator avoids the class by
-# construction); replayed on every run, matched by exact input in known-findings.d/C03.json.
-WITNESSES = [
-    ("N1", (("func", "c03n1g", ((("x", None),), None), (("debug", ("var", "x")), ("ret", ("var", "x")))),
-            ("func", "c03n1f", ((("c03n1a", None), ("c03n1b", None)), None),
-             (("ret", ("bin", "add", ("var", "c03n1a"), ("var", "c03n1b"))),)),
-            ("debug", ("call", "c03n1f", (), (("c03n1b", ("call", "c03n1g", (("num", F(1)),), (), None)),
-                                               ("c03n1a", ("call", "c03n1g", (("num", F(2)),), (), None))), None)))),
-]
+# Witnesses of findings the as-found switches do not model; replayed on every run, matched by
+# exact input in known-findings.d/C03.json.  (None at present: N1 was repaired and moved to CORPUS.)
+WITNESSES = []
 
 
 def witness_stream(ck, pool):
@@ -574,7 +574,7 @@ def run(tier, seed):
     ck.assumptions = ["numbers restricted to dyadic rationals exactly representable as doubles with <= 10 decimals",
                       "declarations compared per selector (rule ordering belongs to C04)",
                       "errors compared by class (plus the @error message) together with the log trace up to the error",
-                      "named arguments with side effects: at most one per call (evaluation order of named arguments is finding N1)"]
+                      ]
     ck.do_prove(cores=("scope", "eval"))
     if not ck.do_build_runner():
         ck.unproved("correspondence-broken", {"why": "runner does not build against /repo", "error": getattr(ck, "build_error", "")})
